@@ -14,6 +14,7 @@
 import GrogModel.Lemmas.ComposeStores
 import GrogModel.Props.C01
 import GrogModel.Props.C07
+import GrogModel.Props.C08
 set_option linter.unusedSectionVars false
 set_option linter.unusedVariables false
 namespace Grog.Compose
@@ -92,5 +93,172 @@ example :
     subst hr
     exact exRes_sound
 end Example
+
+/-! ## C08: a second machine restores what the first one built, without executing it -/
+
+open Grog.Store (NS)
+
+/-- what machines hand to the wrapper: target results that are (marshalled) entries of sound caches (C01), blobs under
+    the digest of their content (C07) -/
+def RemoteWritesOK (P : Params κ) (cd : Codec κ) : NS → Bytes → Bytes → Prop :=
+  fun ns key content => WritesSound P cd ns key content ∧ (ns = .cas → cd.dig content = key)
+
+/-- "the results of A's build of `order` are in the remote store": for every target of the order, the entry A's cache
+    holds under the target's key is what `target/<key>` of the remote unmarshals to, and that entry references the digests
+    of the result's outputs -/
+def Published (P : Params κ) (cd : Codec κ) (defs : Defs) (order : List Lbl) (fA : BState κ) (sR : Remote.State) : Prop :=
+  ∀ l ∈ order, ∀ t ohs r, defs l = some t → depOhs fA.st t.hdeps = some ohs →
+    fA.cache.res (P.K (keyState t fA.fs ohs)) = some r →
+    ∃ b, sR.remote .target (cd.encK (P.K (keyState t fA.fs ohs))) = some b ∧ cd.decR b.content = some r ∧
+      b.refs = r.outs.map (fun ov => cd.dig ov.2)
+
+/-- State form. `sR` is a remote-closed state of the two-tier store (C08.remote_closed) whose contents were written
+    soundly; machine `mB` has an empty local cache. -/
+theorem second_machine_state {P : Params κ} (hG : Good P) (cd : Codec κ) (hdig : ∀ a b, cd.dig a = cd.dig b → a = b)
+    (cfg : Cfg) (defs : Defs) (order : List Lbl) (hwf : WF defs order) (hpl : Plain P cfg defs order)
+    (wA : World κ) (hdA : wA.defs = defs) (hsA : CacheSound P wA.cache)
+    (hokA : succeeded (build P cfg wA order) order = true)
+    (sR : Remote.State) (hcl : C08.RemoteClosed sR) (hcar : RCarries (RemoteWritesOK P cd) sR)
+    (hpub : Published P cd defs order (build P cfg wA order) sR)
+    (mB : Remote.Mid) (hempty : ∀ ns k, sR.loc mB ns k = none)
+    (fsB : FS) (hsrc : ∀ p, (∀ l ∈ order, ∀ t, defs l = some t → p ∉ outPaths t) → fsB p = wA.fs p) :
+    let sB := build P cfg ⟨defs, fsB, viewCache cd (fun _ => false) sR mB⟩ order
+    executed sB = [] ∧ succeeded sB order = true ∧
+    ∀ l ∈ order, ∀ t, defs l = some t → ∀ p ∈ outPaths t, sB.fs p = (build P cfg wA order).fs p := by
+  intro sB
+  subst hdA
+  let fA := build P cfg wA order
+  let vc : Cache κ := viewCache cd (fun _ => false) sR mB
+  have hview : ∀ ns k, canGet sR mB ns k = sR.remote ns k := by
+    intro ns k; simp [canGet, hempty ns k]
+  -- the view is a sound cache
+  have hvs : CacheSound P vc := by
+    intro k r hr
+    simp only [vc, viewCache, hview] at hr
+    cases hb : sR.remote .target (cd.encK k) with
+    | none => simp [hb] at hr
+    | some b =>
+      simp only [hb, Option.bind_some] at hr
+      exact (hcar.remote .target (cd.encK k) b hb).1 rfl k r rfl hr
+  -- every target of A's build is settled; it stays settled when A's cache is replaced by B's view
+  have hsetA : ∀ l ∈ order, Settled P wA.defs fA l := by
+    have hset := settled_run_aux hG hwf hpl (fuelFor order) order [] (start wA) (by simp) (fun l hl => by simp at hl)
+    simp only [List.nil_append] at hset
+    have hok := (succeeded_iff _ order).1 hokA
+    exact fun l hl => hset l hl (hok l hl)
+  let f' : BState κ := { fA with cache := vc }
+  have hsetB : ∀ l ∈ order, Settled P wA.defs f' l := by
+    intro l hl
+    obtain ⟨t, ts, ohs, r, ht, hts, hk, hohs, hres, hoh, hv, hb, hta, hch⟩ := hsetA l hl
+    obtain ⟨b, hrb, hdec, hrefs⟩ := hpub l hl t ohs r ht hohs hres
+    refine ⟨t, ts, ohs, r, ht, hts, hk, hohs, ?_, hoh, hv, ?_, rfl, hch⟩
+    · show vc.res (P.K (keyState t fA.fs ohs)) = some r
+      simp only [vc, viewCache, hview]
+      rw [hrb]
+      simp [hdec]
+    · intro ov hov
+      show vc.cas ov.2 = true
+      obtain ⟨b', hb', _⟩ := hcl _ b hrb (cd.dig ov.2) (by rw [hrefs]; exact List.mem_map.mpr ⟨ov, hov, rfl⟩)
+      have hc := (hcar.remote .cas (cd.dig ov.2) b' hb').2 rfl
+      have : b'.content = ov.2 := hdig _ _ hc
+      simp only [vc, viewCache, hview, hb', this, beq_self_eq_true]
+  -- B's build: every target is a hit
+  have hfsA : ∀ p, (∀ l ∈ order, ∀ t, wA.defs l = some t → p ∉ outPaths t) → fA.fs p = wA.fs p :=
+    fun p hp => build_fs_off hG hpl.all wA hwf p hp
+  have h2 := second_run_aux hG hwf hpl (fuelFor order) f' hsetB order []
+    (start ⟨wA.defs, fsB, vc⟩) (by simp)
+    ⟨rfl, rfl, fun p hp => by show fsB p = fA.fs p; rw [hsrc p hp, hfsA p hp], fun l hl => by simp at hl⟩
+  simp only [List.nil_append] at h2
+  have hlog : sB.log = [] := h2.log
+  have hokB : succeeded sB order = true := (succeeded_iff _ order).2 (fun l hl => (h2.st l hl).1)
+  refine ⟨by simp [executed, hlog], hokB, ?_⟩
+  -- byte-identical outputs: both builds are simulated by the same clean build (C01.build_sim)
+  have hsim := C01.build_sim hG hpl.gate cfg cfg hpl.all hpl.all wA.defs order hwf wA ⟨wA.defs, fsB, vc⟩ rfl rfl hsA hvs
+    (fun p hp => (hsrc p hp).symm)
+  intro l hl t ht p hp
+  have hokl : ∃ ts, fA.st l = some ts ∧ ts.ok = true := (succeeded_iff _ order).1 hokA l hl
+  exact (hsim.2 l hl hokl t ht p hp).symm
+
+/-- **C08.second_machine.** Any history of the two-tier store (`es`: any number of machines and processes, builds with
+    and without remote cache, remote faults) whose writes are sound (target results come from sound caches — C01 on every
+    publishing machine —, blobs are stored under the digest of their content — C07) and that contains, for every target of
+    A's successful build of `order`, a tee `Set` of A's result that reached the remote tier and was not replaced afterwards
+    by another value. Machine B has an empty local cache, addresses the same namespace (same keys: `cd.encK`) and has the
+    same sources. Then B's build of `order` over its read-through view of the store
+      * executes no command,
+      * succeeds,
+      * and leaves every declared output byte-identical to A's.
+    Closure of the remote store (`C08.remote_closed`, repaired `Cas.Write`) is what makes every referenced blob retrievable;
+    `get_returns_view` / `view_get_enabled` / `view_stable_get` tie `viewCache` to the `Get` events of the transition system
+    (the value a Get returns is the view's; B's own read-through fills do not change the view). -/
+theorem second_machine {P : Params κ} (hG : Good P) (cd : Codec κ) (hdig : ∀ a b, cd.dig a = cd.dig b → a = b)
+    (cfg : Cfg) (defs : Defs) (order : List Lbl) (hwf : WF defs order) (hpl : Plain P cfg defs order)
+    (wA : World κ) (hdA : wA.defs = defs) (hsA : CacheSound P wA.cache)
+    (hokA : succeeded (build P cfg wA order) order = true)
+    (es : List Remote.Ev) (sR : Remote.State) (hrun : Remote.run .fixed Remote.init es = some sR)
+    (hwr : RWritesSatisfy (RemoteWritesOK P cd) es)
+    (hup : ∀ l ∈ order, ∀ t ohs r, defs l = some t → depOhs (build P cfg wA order).st t.hdeps = some ohs →
+      (build P cfg wA order).cache.res (P.K (keyState t (build P cfg wA order).fs ohs)) = some r →
+      ∃ pre post p b lst ok, es = pre ++ Remote.Ev.setRes p .target (cd.encK (P.K (keyState t (build P cfg wA order).fs ohs))) b lst true ok :: post ∧
+        (∀ e ∈ post, WritesOnly .target (cd.encK (P.K (keyState t (build P cfg wA order).fs ohs))) b e) ∧
+        cd.decR b.content = some r ∧ b.refs = r.outs.map (fun ov => cd.dig ov.2))
+    (mB : Remote.Mid) (hempty : ∀ ns k, sR.loc mB ns k = none)
+    (fsB : FS) (hsrc : ∀ p, (∀ l ∈ order, ∀ t, defs l = some t → p ∉ outPaths t) → fsB p = wA.fs p) :
+    let sB := build P cfg ⟨defs, fsB, viewCache cd (fun _ => false) sR mB⟩ order
+    executed sB = [] ∧ succeeded sB order = true ∧
+    ∀ l ∈ order, ∀ t, defs l = some t → ∀ p ∈ outPaths t, sB.fs p = (build P cfg wA order).fs p := by
+  have hcl : C08.RemoteClosed sR := C08.remote_closed es sR hrun
+  have hcar : RCarries (RemoteWritesOK P cd) sR := rcarries_run es _ _ (rcarries_init _) hwr hrun
+  have hpub : Published P cd defs order (build P cfg wA order) sR := by
+    intro l hl t ohs r ht hohs hres
+    obtain ⟨pre, post, p, b, lst, ok, he, hpost, hdec, hrefs⟩ := hup l hl t ohs r ht hohs hres
+    refine ⟨b, ?_, hdec, hrefs⟩
+    rw [he] at hrun
+    exact published_of_trace .fixed Remote.init sR pre post p .target _ b lst ok hrun hpost
+  exact second_machine_state hG cd hdig cfg defs order hwf hpl wA hdA hsA hokA sR hcl hcar hpub mB hempty fsB hsrc
+
+section Example2
+/-- a key type with an injective key function: the key *is* the key-state -/
+inductive ExKey where
+  | mk (ks : KeyState ExKey)
+
+noncomputable instance : DecidableEq ExKey := fun a b => Classical.propDecidable (a = b)
+
+/-- parameters satisfying `Good`: injective key; every command succeeds and writes exactly the outputs it names -/
+noncomputable def exGoodP : Params ExKey :=
+  ⟨ExKey.mk, fun c _ => ⟨true, c.writes.map (fun o => (o, [])), []⟩, Fixes.current⟩
+
+theorem exGoodP_good : Good exGoodP :=
+  ⟨fun a b h => by cases h; rfl, fun c v _ => by simp [exGoodP, List.map_map, Function.comp_def], fun c v => rfl⟩
+
+noncomputable def exCd2 : Codec ExKey := ⟨fun _ => [], id, fun _ => none⟩
+
+/-- the hypotheses of `second_machine` are satisfiable: `Good` parameters, an injective digest, a history of the two-tier
+    store in which A uploads a blob that was only in its local cache and a result referencing it, B reads both through —
+    all writes sound —, and the (empty) selection; non-trivial selections are the histories of the C08 check. -/
+example :
+    Good exGoodP ∧ (∀ a b, exCd2.dig a = exCd2.dig b → a = b) ∧
+    WF (fun _ => none) [] ∧ Plain exGoodP ⟨true, false⟩ (fun _ => none) [] ∧
+    (Remote.run .fixed Remote.init
+      [.localSet 0 .cas [1] ⟨[1], []⟩, .proc 1 0, .existsAllRes 1 [1] .no,
+       .setRes 1 .cas [1] ⟨[1], []⟩ true true true, .setRes 1 .target [9] ⟨[9], [[1]]⟩ true true true,
+       .proc 2 1, .getRes 2 .target [9] (some ⟨[9], [[1]]⟩) true, .getRes 2 .cas [1] (some ⟨[1], []⟩) true]).isSome = true ∧
+    RWritesSatisfy (RemoteWritesOK exGoodP exCd2)
+      [.localSet 0 .cas [1] ⟨[1], []⟩, .proc 1 0, .existsAllRes 1 [1] .no,
+       .setRes 1 .cas [1] ⟨[1], []⟩ true true true, .setRes 1 .target [9] ⟨[9], [[1]]⟩ true true true,
+       .proc 2 1, .getRes 2 .target [9] (some ⟨[9], [[1]]⟩) true, .getRes 2 .cas [1] (some ⟨[1], []⟩) true] := by
+  refine ⟨exGoodP_good, fun a b h => h, ?_, ⟨rfl, rfl, rfl, rfl, fun l hl => by simp at hl⟩, by decide, ?_, ?_⟩
+  · exact ⟨List.nodup_nil, fun l hl => by simp at hl, fun l t h => by simp at h, fun l hl => by simp at hl,
+      fun pre l suf h => by simp at h, fun l hl => by simp at hl, fun l hl => by simp at hl, fun l hl => by simp at hl⟩
+  · intro p ns k b l r ok hm
+    simp only [List.mem_cons, Remote.Ev.setRes.injEq, reduceCtorEq, List.not_mem_nil, or_false, false_or] at hm
+    rcases hm with ⟨_, rfl, rfl, rfl, _⟩ | ⟨_, rfl, rfl, rfl, _⟩
+    · exact ⟨fun h => (by cases h), fun _ => rfl⟩
+    · exact ⟨fun _ k r _ hr => (by simp [exCd2] at hr), fun h => (by cases h)⟩
+  · intro m ns k b hm
+    simp only [List.mem_cons, Remote.Ev.localSet.injEq, reduceCtorEq, List.not_mem_nil, or_false, false_or] at hm
+    obtain ⟨_, rfl, rfl, rfl⟩ := hm
+    exact ⟨fun h => (by cases h), fun _ => rfl⟩
+end Example2
 
 end Grog.Compose
